@@ -572,10 +572,11 @@ def gen_base(rng, cls, family=None, allow_scramble=False, allow_invalid_faces=Fa
         if allow_scramble and fac and rng.chance(0.25):
             # scramble orientation/rotation of some faces so sort_faces has work to do
             faces = [list(f) for f in faces]
+            mode = rng.choice(["reverse", "reverse", "sequence", "both"])
             for f in faces:
-                if rng.chance(0.4):
+                if mode != "sequence" and rng.chance(0.4):
                     f.reverse()
-            if rng.chance(0.4):
+            if mode != "reverse":
                 # ... and list one face out of cyclic sequence (a, c, b, d): sort_faces
                 # re-sequences the vertices of every face before it orients them
                 big = [f for f in faces if len(f) >= 4]
